@@ -57,8 +57,15 @@ func vfH_C19_primitives() {
 	key := vfKey(1)
 	switch vfChoice("primitive", 5) {
 	case 0: // Lock: exclusive
-		a, b := db.Lock(key, 0, 10), db.Lock(key, 0, 10)
+		// the upper halves of the two time arguments are flag words (units, unlimited, ...): what the
+		// client sends must carry each of them in its own field
+		tf := [3]uint32{0, uint32(protocol.TIMEOUT_FLAG_MILLISECOND_TIME), uint32(protocol.TIMEOUT_FLAG_MINUTE_TIME)}[vfChoice("timeoutFlag", 3)]
+		ef := [3]uint32{0, uint32(protocol.EXPRIED_FLAG_MINUTE_TIME), uint32(protocol.EXPRIED_FLAG_UNLIMITED_EXPRIED_TIME)}[vfChoice("expriedFlag", 3)]
+		a, b := db.Lock(key, 0|tf<<16, 10|ef<<16), db.Lock(key, 0, 10)
 		vfAssert(vfOK(a.Lock()), "C19: Lock on a free key failed")
+		if hs := vfHolders(env.manager(key)); len(hs) == 1 {
+			vfAssert(uint32(hs[0].command.TimeoutFlag) == tf && uint32(hs[0].command.ExpriedFlag) == ef, "C19: the hold the server took does not carry the wait / hold flags the Lock was built with")
+		}
 		vfAssert(!vfOK(b.Lock()), "C19: two Lock objects hold the same key at once")
 		vfAssert(!vfOK(b.Unlock()), "C19: a Lock object released a key it does not hold")
 		vfAssert(vfOK(a.Unlock()), "C19: the holder could not unlock")
